@@ -7,6 +7,7 @@ import JediVerif.Impl.Wnaf
 import JediVerif.Impl.Encode
 import JediVerif.Impl.Miller
 import JediVerif.Impl.FastMul
+import JediVerif.Impl.GtNodiv
 
 namespace Jedi.Driver
 open Jedi.Impl
@@ -137,6 +138,10 @@ def judgeMisc (op : String) (out : List String) : P Bool := do
     if op == "gt_exp" then
       let m := Impl.exponentiateGt a (xadic k)
       if m != npow a (k % r) then throw "gt_exp: Impl model of exponentiate_gt differs from a^k"
+    else
+      -- the model of `exponentiate_gt_nodiv<BigInt<256>>` (Impl/GtNodiv.lean), run on the raw 256-bit exponent, must
+      -- reproduce the real output exactly
+      expectToks "gt_expnd (model)" (strQ12 a ++ strQ12 (Impl.gtExpNodiv256 a k)) out
     pure true
   | "gt_ops" =>
     let s ← nextHex; let t ← nextHex
